@@ -165,12 +165,17 @@ func run(c *mon.Ctx) {
 		}
 		p := ref.GenPMT(r, nStreams)
 		k := mkCarrier(r, &p)
-		full := k.full()
+		full := r.Slack(k.full())
 		snap := append([]byte{}, full...)
 		w := func(car string) func(string) wit {
 			return func(d string) wit { return wit{Carrier: car, Shape: k.shape(&p), Payload: mon.Hex(snap), Detail: d} }
 		}
-		// ---- NewPMT on the concatenated payload
+		// ---- NewPMT on the concatenated payload (sometimes right after a call that fails: no state is carried over)
+		if i%8 == 3 {
+			psi.NewPMT(full[:r.Intn(len(full))])
+			psi.NewPMT(nil)
+			c.Count("decode_after_failed_decode")
+		}
 		m, err := psi.NewPMT(full)
 		c.Eval(1)
 		if err != nil || m == nil {
